@@ -1,11 +1,48 @@
 """C15 - type traits, concepts, numeric_limits and ratio agree with the language and std."""
 from pipes import types
 
+NOT_COVERED = [
+    "traits that are pure compiler intrinsics with no structural rule stated in TypesOps.tla: has_unique_object_representations, "
+    "is_layout_compatible / is_pointer_interconvertible_* (absent from etl), is_standard_layout beyond the generated class zoo",
+    "invoke_result, is_invocable, is_invocable_r, is_nothrow_invocable, common_reference, basic_common_reference, "
+    "aligned_storage, aligned_union, is_swappable_with / is_nothrow_swappable_with for T != U, unwrap_reference, void_t, enable_if",
+    "concepts with an operator/iterator meaning: equality_comparable, weakly_equality_comparable_with, regular, boolean_testable, "
+    "invocable, predicate, relation, common_with, common_reference_with",
+    "etl-only extensions without a std facility of the same name: is_builtin_integer*, is_specialized, smallest_size_t, always_false, "
+    "index_constant, meta::*",
+    "is_convertible / is_constructible / is_assignable only for the rule families of TypesOps.tla (arithmetic/enum/pointer/member "
+    "pointer/nullptr_t scalars, same-or-public-base classes without converting constructors, reference binding to the same or a "
+    "base type, array-to-pointer, function-to-pointer); multi-level pointer qualification conversions, aggregate initialisation "
+    "of classes from foreign arguments, arrays of class type from one argument and user-defined conversions are left open",
+    "combinations on which gcc 12 / libstdc++ disagree with the C++20 wording are left open (not judged): is_trivially_copyable of a "
+    "class without eligible copy/move operation or with a deleted destructor (CWG 1734), is_trivial with a deleted default "
+    "constructor (P0848), default-construction traits of arrays whose element destructor is non-trivial or unusable, "
+    "__is_assignable with an abstract prvalue on the left",
+    "common_type only for two arithmetic types (usual arithmetic conversions); underlying_type of an enumeration without fixed "
+    "underlying type (implementation-defined) is not judged",
+    "numeric_limits::traps and ::tinyness_before (platform properties, not functions of width/format); NaN payloads",
+    "ratio: operands beyond +-12 except comparisons and normal form of ratio<+-(INTMAX_MAX - k), d>; ratio arithmetic near overflow, "
+    "SI typedefs (atto ... exa)",
+    "cstdint / cstddef typedefs (int_least*_t, size_t, ...) are covered only indirectly (the zoo contains every builtin integer type)",
+]
+
 
 def run(tier, rep):
     types.pipeline(tier, rep)
-    rep.assumptions += []
-
-
-def replay(path):
-    return types.replay(path, "C15")
+    rep.cov["not_covered"] = NOT_COVERED
+    rep.assumptions += [
+        "compile-time behaviour: 'execution' = instantiation by g++ 12 (-std=c++23 because std::is_scoped_enum is C++23; the etl "
+        "headers are dialect-independent above C++20); a row that does not compile is recorded as an observation {ill:true} and "
+        "judged like a value",
+        "platform facts used by the algebra (confirmed by the calibration): LP64 x86-64, Itanium ABI, plain char and wchar_t "
+        "signed, wchar_t 32 bit, long double = x87 80-bit extended, enum without fixed type has size 4",
+        "the type zoo is the closure of TypesOps' constructors over the base kinds to depth 2 (quick: ~380 types, 625 ordered "
+        "pairs) / 3 (thorough: ~900 types, 4900 pairs); the class zoo is the descriptor table of TypesOps.tla (52 classes: "
+        "union/empty/polymorphic/abstract/final/aggregate, one public or private base, every special member implicit / "
+        "defaulted / user-provided noexcept / user-provided throwing / deleted) and the C++ definitions are generated from the "
+        "very same descriptors",
+        "is_trivially_/is_nothrow_*constructible count the destructor as all three standard libraries do (LWG 2116/2827)",
+        "the TLA+ reading of [meta], [concepts], [numeric.limits], [ratio] is calibrated against libstdc++ 12 on the identical "
+        "rows (zero deviations required); where libstdc++ and the C++20 wording disagree the combination is left open",
+        "both spellings are observed where they exist: trait<T>::value and trait_v<T>, trait<T>::type and trait_t<T>",
+    ]
